@@ -2102,6 +2102,68 @@ def __default__():
 ''')
 
 
+# --- method ids ending in zero bytes: calldata that is a proper prefix of such an id must not reach the function ---
+_ZERO_SEL = '''
+event Fell:
+    datalen: uint256
+
+event Hit:
+    which: uint256
+
+n: public(uint256)
+
+@external
+def gh() -> uint256:          # 0x33b10800
+    log Hit(which=1)
+    return 1
+
+@external
+def sb() -> uint256:          # 0xd4e32100
+    log Hit(which=2)
+    return 2
+
+@external
+def yk() -> uint256:          # 0x944f1000
+    self.n += 1
+    return 3
+
+@external
+def dein() -> uint256:        # 0x0afe0000
+    log Hit(which=4)
+    return 4
+
+@external
+def dgur() -> uint256:        # 0x9c700000
+    self.n += 10
+    return 5
+
+@external
+def abo(x: uint256) -> uint256:      # 0x7c936c00
+    return x + 6
+
+@external
+def askv(x: uint256) -> uint256:     # 0x462c0000
+    return x + 7
+
+@external
+@payable
+def pay() -> uint256:
+    return msg.value
+
+@external
+def plain(x: uint256) -> uint256:
+    return x * 2
+'''
+_add("fallback_zero_selectors", _ZERO_SEL + '''
+@external
+@payable
+def __default__():
+    self.n += 100
+    log Fell(datalen=len(msg.data))
+''')
+_add("zero_selectors_no_default", _ZERO_SEL)
+
+
 # --- the callee observes the caller's INTERMEDIATE state: a store before an external call must not be elided / delayed ---
 _add("callback_storage", _IFACE + '''
 event Obs:
